@@ -22,7 +22,8 @@ RULE = ("cases = (dyadic start position, decimal places 6|9, direction, list "
         "of <=5 ops: move/rapid/move_absolute/rapid_absolute to partial "
         "absolute waypoints, absolute_mode()/relative_mode() contexts, arc "
         "(quarter-turn multiples incl. full turn), arc_radius, circle, spline, "
-        "helix, thread, spiral, polyline; all coordinates multiples of 1/8 "
+        "helix, thread, spiral, polyline, a user-supplied parametric curve that "
+        "does not start at the current position; all coordinates multiples of 1/8 "
         "with |v|<=1024 so that o+(t-o) is exact; resolutions from {1/2,1,2,"
         "4}); non-trivial = path with >=1 tracer shape and >=2 ops; distinct "
         "by SHA-1")
@@ -45,7 +46,7 @@ def dy(lo, hi):
     return st.integers(int(lo * 8), int(hi * 8)).map(lambda k: k / 8.0)
 
 
-def op_strategy(depth=1):
+def op_strategy(depth=2):
     from hypothesis import strategies as st
     w = dy(-40, 40)
     off = dy(-12, 12)
@@ -74,12 +75,19 @@ def op_strategy(depth=1):
                                "pitch": st.sampled_from([0.5, 1.0, 2.0, 4.0]), "res": res}),
         st.fixed_dictionaries({"op": st.just("spiral"), "dx": nzo, "dy": off,
                                "turns": st.integers(1, 3), "dz": dz, "res": res}),
+        # user-supplied parametric curve in absolute coordinates that does NOT
+        # start at the current position (a straight run from A to B with a bulge)
+        st.fixed_dictionaries({"op": st.just("parametric"), "ax": off, "ay": off, "bx": nzo,
+                               "by": off, "bulge": dy(0, 4), "dz": dy(-4, 4), "res": res}),
     )
     if depth <= 0:
         return prim
+    bypass = st.fixed_dictionaries({"op": st.sampled_from(["move_absolute", "rapid_absolute"]),
+                                    "to": pt})
     ctx = st.fixed_dictionaries({"op": st.just("ctx"),
                                  "kind": st.sampled_from(["absolute_mode", "relative_mode"]),
-                                 "body": st.lists(op_strategy(depth - 1), max_size=3)})
+                                 "body": st.lists(st.one_of(op_strategy(depth - 1), bypass),
+                                                  max_size=3)})
     return st.one_of(prim, prim, prim, prim, ctx)
 
 
@@ -183,6 +191,21 @@ class Exec:
                 elif name == "thread":
                     W = [p[0] + op["dx"], p[1] + op["dy"], p[2] + op["dz"]]
                     g.trace.thread(self.target(W, 3), op["pitch"])
+                elif name == "parametric":
+                    import numpy as np
+                    A = (p[0] + op["ax"], p[1] + op["ay"], p[2])
+                    B = (A[0] + op["bx"], A[1] + op["by"], p[2] + op["dz"])
+                    bulge = op["bulge"]
+
+                    def fn(thetas, A=A, B=B, bulge=bulge):
+                        t = np.asarray(thetas, dtype=float)
+                        x = A[0] + (B[0] - A[0]) * t
+                        y = A[1] + (B[1] - A[1]) * t + bulge * 4 * t * (1 - t)
+                        z = A[2] + (B[2] - A[2]) * t
+                        return np.column_stack((x, y, z))
+                    length = float(g.trace.estimate_length(200, fn))
+                    g.trace.parametric(fn, max(length, 0.5))
+                    W = list(B)
                 elif name == "spiral":
                     W = [p[0] + op["dx"], p[1] + op["dy"], p[2] + (op["dz"] or 0.0)]
                     n = 3 if op["dz"] is not None else 2
